@@ -61,7 +61,7 @@ Theorem vstep_refines : forall (w : wN) s op, vinv w s ->
   exists w', vstep w op = Ok (w', snd (vspec s op)) /\ vinv w' (fst (vspec s op)).
 Proof.
   intros w s op Hinv. pose proof Hinv as (Hwf & Hv).
-  destruct op as [i l|i l|i j|i j|i|i j|i l|i l]; cbn [vstep vspec fst snd].
+  destruct op as [i l|i l|i j|i j|i|i j|i l|i l|i|i|i]; cbn [vstep vspec fst snd].
   - (* VNew *)
     rewrite alloc_eq.
     destruct (vinv_new w s i l (length l) (upd s i l) Hinv (le_n _)) as (h2 & Hwr & Hinv2).
@@ -99,6 +99,12 @@ Proof.
                ltac:(rewrite app_length; lia) (firstn_cstr_app _ _) (firstn_cstr_length _)). cbn [bind]. eauto.
   - (* VIsEqual *)
     rewrite (v_eq_ext_ok w s i l (length l) l Hinv (le_n _) (firstn_all _) eq_refl). cbn [bind]. eauto.
+  - (* VIter *)
+    destruct (views_read _ _ _ (Hv i)) as (Hrd & _). rewrite Hrd. cbn [bind]. eauto.
+  - (* VStreamOut *)
+    destruct (views_read _ _ _ (Hv i)) as (Hrd & _). rewrite Hrd. cbn [bind]. eauto.
+  - (* VIsEmpty *)
+    destruct (views_read _ _ _ (Hv i)) as (_ & Hlen). rewrite Hlen. eauto.
 Qed.
 
 Lemma vinv0 : vinv world0 spec0.
